@@ -264,7 +264,7 @@ PARSE_FIELDS = ['0', '00', '7', '07', '59', '60', '99', '1.5', '01.50', '.5', '5
 JUNK = ['', ' ', ':', ';', '1::2', '1:2;3', ':1', '1:', 'abc', '1e3', 'nan', 'inf', '-inf', 'infinity', '0x10', '1_0', '1__0',
         '١٢:٣٠', '５', '-5', '-1:30', '1:-30', '+5', '1:2:3:4', '1;2;3;4', '1:2.5:3', ' 1:2 ', '1 :2',
         '1:2\n', '\n', '1\x00', '1.2.3', '1,5', '1:2,5', '9' * 400, '9' * 5000, '1:' + '9' * 5000, '1.5e400', '1e-400', 'None',
-        'True', '1:1:1e2', '0b1', '1j', '\t7', '7\t:8', '1:.', '.', '..', '1:.:2', '²', '①', '1 2', '5;', ';5']
+        '1' + '0' * 400 + ':0.5', '9' * 310 + ';1.5', '2.5:' + '9' * 400, '1' + '0' * 309 + ':0:0.1', '9' * 4000 + ':0.5', 'True', '1:1:1e2', '0b1', '1j', '\t7', '7\t:8', '1:.', '.', '..', '1:.:2', '²', '①', '1 2', '5;', ';5']
 
 
 def parse_work(mon, ctx, spec, rnd):
